@@ -120,8 +120,13 @@ CLAIMED["C15"] = (
     "Trusted: vf/sx/rnp.py, the rational numpy stand-in (counterexamples are replayed on real numpy before they count); exact inverse for numpy.linalg.inv; z3 nlsat. NOT covered (no encodable arithmetic: trigonometry, LAPACK, float rounding): distance/angle/dihedral equal their definitions and are rigid-motion invariant, index_* variants, unit-cell <-> box-vector conversion, remove_pbc, per-model boxes, symbolic cell vectors. These clauses are undecided by this check.",
     "DESIGN.md §4 C15")
 
+CLAIMED["C16"] = (
+    "bounded symbolic execution of AffineTransformation (apply / as_matrix) and of superimpose()'s centring and mask logic (superimpose.py loaded through the SX rewrite, rotation solver replaced by an arbitrary symbolic matrix) over exact rationals with z3 (polynomial identities)",
+    "Bounded model checking of the ALGEBRAIC clauses of the property only. Class S: for any 3x3 matrix, translations and coordinates (symbolic rationals), apply(x) = R(x + c) + t per model, equal to the 4x4 matrix form; superimpose() with any rotation places the anchor centroid of the mobile structure on that of the fixed one, for every anchor mask of the bound, for arrays and stacks, and the returned transformation reproduces the fitted coordinates.",
+    "Trusted: vf/sx/rnp.py, the rational numpy stand-in (counterexamples are replayed on real numpy), z3. NOT covered (LAPACK behind FFI, float32): that the rotation is proper and RMSD-optimal (SVD + reflection correction in _get_rotation_matrices), RMSD values, zero RMSD for rigid copies incl. degenerate point sets, superimpose_without_outliers / superimpose_homologs anchor logic. These clauses are undecided by this check.",
+    "DESIGN.md §4 C16")
+
 NOT_APPLICABLE = {
-    "C16": "optimality/properness come from np.linalg.svd/det (LAPACK behind FFI) on float32 data; no encodable source; z3 terms cannot pass astype(float32) (DESIGN §6)",
 }
 
 PENDING = {}
